@@ -146,6 +146,9 @@ def canon_state(mgr):
     return hash(tuple(st))
 
 
+SPECIAL_BASE = [(V("b"), V("a")), (V("a"), A(V("a"), V("b"))), (V("c"), V("b"))]
+
+
 def pick_bases(seed, weakly, n):
     want = ("weak-finite",) if weakly else ("strong",)
     reps, _ = scopes.structural_scope(scopes.L3, scopes.SIG3, 3, want, seed, 1)
@@ -170,7 +173,7 @@ class C13(Check):
             "pairs, 4 triples, 5 batches with the deep pair, 5 batches with a vacuous query and with a different query under an "
             "already used key; multi in {False, True}. E-seq (a): un-merged "
             "DFS over ALL sequences of depth <= 2 (thorough 3) of the sequential operations and of the parallel ones under the "
-            "default schedule, per (base, config, mode). E-seq (b): explicit-state BFS with states merged on a canonical form "
+            "default schedule, per (base, config, mode); the bases include one with a conditional no world falsifies, (a|a,b). E-seq (b): explicit-state BFS with states merged on a canonical form "
             "of epistemic_state (id-pool numbering dropped) over 6 operations until no new state appears; all depth<=3 "
             "sequences are re-run un-merged and must land in the state the merged graph predicts (this validates the "
             "canonical form). E-sched: multiprocessing replaced by a controlled double whose children are real forks; "
@@ -199,6 +202,10 @@ class C13(Check):
                             out.append(("dfs", conds, cfg, weakly, 3, False, first))
                     if cfg in ("z", "w-rc2", "c", "lex-z3"):
                         out.append(("dfs", conds, cfg, weakly, 2, True))
+        # a base with a conditional no world falsifies and one whose antecedent repeats its consequent: preprocessing treats such
+        # conditionals specially, and what it learned about them has to survive into later calls on the same manager
+        for cfg in STRICT:
+            out.append(("dfs", SPECIAL_BASE, cfg, False, 2, False))
         for weakly in (False, True):
             conds = self.bases[weakly][0]
             for cfg in ("w-rc2", "lex-rc2", "c", "z") if not weakly else ("w-rc2", "lex-rc2"):
